@@ -147,6 +147,7 @@ func malformedCodecShapes(c *chk.Ctx) {
 				}
 				valid := unb64s(e["jsonB64"])
 				ms := undecodable(valid, freeFormNames(mc.ex.Schema))
+				ms = append(ms, twoSpellings(valid, mc.ex.Schema.Index().Msgs[mc.top])...)
 				if per > 0 && len(ms) > per {
 					rnd.Shuffle(len(ms), func(i, j int) { ms[i], ms[j] = ms[j], ms[i] })
 					ms = ms[:per]
@@ -421,6 +422,45 @@ func freeFormNames(s *abs.Schema) map[string]bool {
 	}
 	for _, f := range s.Files {
 		walk(f.Messages)
+	}
+	return out
+}
+
+// twoSpellings: a field of the request message given twice - under its JSON name with its value and under
+// its proto name with a value of a type it cannot take. proto3 JSON knows a field under both names, so the
+// document names one field twice and half of it is undecodable: no decoder of the message may accept it.
+func twoSpellings(valid []byte, top *abs.Message) []mutBody {
+	if top == nil {
+		return nil
+	}
+	dec := json.NewDecoder(bytes.NewReader(valid))
+	dec.UseNumber()
+	var doc any
+	if err := dec.Decode(&doc); err != nil {
+		return nil
+	}
+	obj, ok := doc.(map[string]any)
+	if !ok {
+		return nil
+	}
+	var out []mutBody
+	for _, f := range top.Fields {
+		if f.JSON == "" || f.JSON == f.Name {
+			continue
+		}
+		old, present := obj[f.JSON]
+		if _, clash := obj[f.Name]; !present || clash {
+			continue
+		}
+		w, ok := wrongType(old)
+		if !ok {
+			continue
+		}
+		obj[f.Name] = w
+		if b, err := json.Marshal(obj); err == nil {
+			out = append(out, mutBody{body: b, how: fmt.Sprintf("$.%s next to $.%s: the field twice, once with %T", f.Name, f.JSON, w)})
+		}
+		delete(obj, f.Name)
 	}
 	return out
 }
